@@ -661,8 +661,10 @@ inline std::vector<Model> api_models() {
 	}
 	// hierarchical skeletons: a shape skinned to BoneA and to its child BoneB, and a model that already owns BoneA but
 	// not BoneB (a clone into it has to create the descendant under the node that is already there)
-	for (auto& v : {V{"api:SK+bone-chain", NiVersion::getSK()}, V{"api:SSE+bone-chain", NiVersion::getSSE()}, V{"api:SK+bone-root-only", NiVersion::getSK()}, V{"api:SSE+bone-root-only", NiVersion::getSSE()}}) {
+	for (auto& v : {V{"api:SK+bone-chain", NiVersion::getSK()}, V{"api:SSE+bone-chain", NiVersion::getSSE()}, V{"api:SK+bone-root-only", NiVersion::getSK()}, V{"api:SSE+bone-root-only", NiVersion::getSSE()},
+					V{"api:SK+bone-flat", NiVersion::getSK()}, V{"api:SSE+bone-flat", NiVersion::getSSE()}}) {
 		const bool chain = std::string(v.name).find("bone-chain") != std::string::npos;
+		const bool flat = std::string(v.name).find("bone-flat") != std::string::npos; // BoneB exists, but under the root and somewhere else
 		NifFile nif;
 		nif.Create(v.ver);
 		auto& hdr = nif.GetHeader();
@@ -674,7 +676,10 @@ inline std::vector<Model> api_models() {
 		ta.translation = Vector3(0.0f, 0.0f, 1.0f);
 		tb.translation = Vector3(0.0f, 0.5f, 0.0f);
 		NiNode* boneA = nif.AddNode("BoneA", ta, nif.GetRootNode());
-		NiNode* boneB = chain ? nif.AddNode("BoneB", tb, boneA) : nullptr;
+		MatTransform tflat;
+		tflat.translation = Vector3(3.0f, -2.0f, 0.25f);
+		tflat.scale = 1.5f;
+		NiNode* boneB = chain ? nif.AddNode("BoneB", tb, boneA) : flat ? nif.AddNode("BoneB", tflat, nif.GetRootNode()) : nullptr;
 		NiShape* shape = nif.CreateShapeFromData(chain ? "ApiSkinned" : "ApiPlain", &verts, &tris, &uvs, &norms);
 		if (!shape) vf::fatal(std::string("api model has no shape: ") + v.name);
 		nif.CreateSkinning(shape);
